@@ -696,6 +696,27 @@ fn run(ctx: &mut Ctx) {
             aged_draw(ctx, k, opts);
         }
     }
+    // (d4) printing tables of 21..64 rows whose sort keys are chains of close neighbours and duplicates
+    for letter in ['s', 'a', 'A', 'v', 'V', 'N', 'S', 'W', 'E', 'd', 'D', 'c'] {
+        job += 1;
+        if !ctx.mine(job) {
+            continue;
+        }
+        for n in crate::props::c15::DENSE_NS {
+            for variant in 0..32usize {
+                ctx.eval();
+                ctx.count("dense-table-printed");
+                if let Err(e) = crate::props::c15::print_dense(letter, n, variant) {
+                    ctx.violation(
+                        &format!("C01/dense-table/{}", crate::profile_name()),
+                        &format!("-o {letter} n={n} variant={variant}"),
+                        || format!("a table of {n} aircraft with closely spaced '{letter}' keys, -o {letter}, {} build: {e}", crate::profile_name()),
+                        || json!({"kind": "dense", "letter": letter.to_string(), "n": n, "variant": variant, "profile": crate::profile_name()}),
+                    );
+                }
+            }
+        }
+    }
     // (e) CLI (only from the release-like harness: the CLI binaries are the same for both)
     if crate::profile_name() == "release-like" {
         if let Err(e) = cli::available() {
@@ -814,6 +835,15 @@ fn replay(ctx: &mut Ctx, case: &Value) {
     let o: Vec<&str> = opts.iter().map(|s| s.as_str()).collect();
     let bytes = |v: &Value| -> Vec<u8> { v.as_array().map(|a| a.iter().filter_map(|x| x.as_u64().map(|b| b as u8)).collect()).unwrap_or_default() };
     match case.get("kind").and_then(|x| x.as_str()) {
+        Some("dense") => {
+            let letter = case.get("letter").and_then(|x| x.as_str()).and_then(|s| s.chars().next()).unwrap_or('d');
+            let n = case.get("n").and_then(|x| x.as_u64()).unwrap_or(24) as usize;
+            let variant = case.get("variant").and_then(|x| x.as_u64()).unwrap_or(0) as usize;
+            crate::run::say(&format!("dense table: {n} rows, key '{letter}', variant {variant}, {} build", crate::profile_name()));
+            if let Err(e) = crate::props::c15::print_dense(letter, n, variant) {
+                ctx.violation("C01/dense-table", &format!("-o {letter} n={n}"), || e, || case.clone());
+            }
+        }
         Some("aged_draw") => {
             let k = case.get("k").and_then(|x| x.as_u64()).unwrap_or(0) as usize;
             let sets = aged_draw_option_sets();
